@@ -372,6 +372,20 @@ def rule_clump(ctx):
     ctx.ob('C06.clump', f'{f.fq}:element-size', ok, 'element sizes come from the same predictor', l1, mod)
     # per-element contribution: simulate the loop body arithmetic symbolically for s -> accumulated delta
     svar = l2.target.elts[0].id if isinstance(l2.target, ast.Tuple) else None
+    evar = l2.target.elts[1].id if isinstance(l2.target, ast.Tuple) else None
+    # roles: accumulator = the name augmented by the element size in the loop; clump = list the element is appended to;
+    # result = list the clump is appended to when flushing
+    acc = None
+    for s_ in l2.body:
+        if isinstance(s_, ast.AugAssign) and isinstance(s_.op, ast.Add) and isinstance(s_.target, ast.Name) and svar in U.names_in(s_.value) \
+                and s_.target.id != svar:
+            acc = s_.target.id
+    clump = None
+    for s_ in l2.body:
+        if isinstance(s_, ast.Expr) and isinstance(s_.value, ast.Call) and U.method_name(s_.value) == 'append' and s_.value.args \
+                and norm(s_.value.args[0]) == evar:
+            clump = norm(s_.value.func.value)
+    ctx.require(acc is not None and clump is not None, 'C06.clump', f'cannot bind accumulator/clump roles in _clump_bundle (acc={acc}, clump={clump})')
     delta = 0
     flush_test = None
     pre_add = 0
@@ -380,7 +394,7 @@ def rule_clump(ctx):
             pre_add += U.num_value(s.value)
         elif isinstance(s, ast.If) and flush_test is None:
             flush_test = s
-        elif isinstance(s, ast.AugAssign) and norm(s.target) == 'acc_size' and isinstance(s.op, ast.Add):
+        elif isinstance(s, ast.AugAssign) and norm(s.target) == acc and isinstance(s.op, ast.Add):
             try:
                 delta = ev(s.value, {svar: 1000 + pre_add}) - 1000
             except CannotEval:
@@ -388,18 +402,23 @@ def rule_clump(ctx):
     ctx.ob('C06.clump', f'{f.fq}:element-prefix', delta is not None and delta >= 4,
            f'accumulator adds element size + {delta}; the encoder adds element size + 4 (int32 size prefix): clumps of many '
            f'small messages exceed the requested size', l2, mod)
-    init = [s for s in f.node.body if isinstance(s, ast.Assign) and norm(s.targets[0]) == 'acc_size']
+    init = [s for s in f.node.body if isinstance(s, ast.Assign) and norm(s.targets[0]) == acc]
     ctx.ob('C06.clump', f'{f.fq}:initial', bool(init) and U.num_value(init[0].value) == 16, 'accumulator starts at 16 (#bundle + timetag)', f.node, mod)
     ok = False
     if flush_test is not None:
         t = norm(flush_test.test)
         sizep = f.params[2]
-        ok = t in (f'acc_size + {svar} >= {sizep}', f'acc_size + {svar} > {sizep}')
+        ok = t in (f'{acc} + {svar} >= {sizep}', f'{acc} + {svar} > {sizep}')
         resets = [norm(s) for s in flush_test.body]
-        ok = ok and 'res.append(clump)' in resets and 'clump = []' in resets and 'acc_size = 16' in resets
-    ctx.ob('C06.clump', f'{f.fq}:flush', ok, 'flush before the clump would reach the size, and restart at 16', l2, mod)
+        flushed = [r for r in resets if r.endswith(f'.append({clump})')]
+        ok = ok and len(flushed) == 1 and f'{clump} = []' in resets and f'{acc} = 16' in resets and \
+            resets.index(flushed[0]) < resets.index(f'{clump} = []')
+    ctx.ob('C06.clump', f'{f.fq}:flush', ok, 'flush the pending clump before the new element would reach the size, and restart at 16', l2, mod)
     tail = full(f.node)
-    ctx.ob('C06.clump', f'{f.fq}:tail', 'if clump: res.append(clump)' in tail and 'clump.append(e)' in tail,
+    last = f.node.body[-2] if len(f.node.body) >= 2 else None
+    ok_tail = isinstance(last, ast.If) and norm(last.test) == clump and len(last.body) == 1 and norm(last.body[0]).endswith(f'.append({clump})') \
+        and isinstance(f.node.body[-1], ast.Return)
+    ctx.ob('C06.clump', f'{f.fq}:tail', ok_tail and [norm(x) for x in l2.body][-1] == f'{clump}.append({evar})',
            'every element lands in exactly one clump, in order', f.node, mod)
     # sync reserve
     na = ctx.repo.cls('sc3.base.netaddr:NetAddr')
